@@ -16,7 +16,9 @@ MANIFEST = dict(
   note=TRUST + "tied to the proved specs by exact correspondence only (no theorem about a model of their control flow): DCNonDominatedSort and the "
        "size/dimension switch of nonDominatedSort, HypervolumeCalculator3D, HOY, HypervolumeContribution2D/3D/MD (against hvSpec S - hvSpec (S without p)), "
        "HypervolumeSubsetSelection2D (against the brute-force maximum over k-subsets). HypervolumeContributionMD computes exp(sum(log(ref-p))): its "
-       "results are compared after rounding to the nearest integer (tolerance 1e-6), everything else exactly. Theorems are about integer coordinates.",
+       "results are compared after rounding to the nearest integer (tolerance 1e-6), everything else exactly. Theorems are about integer coordinates. "
+       "In the WFG model the rank-1 filter of limitSet is written as 'has no dominator' (equal to rank 1 by rankSpec_eq_one_iff + fastSort_eq_rankSpec); "
+       "WFG is exercised on sets of at most 12 points (it is exponential in the number of tied points).",
   technique="Lean 4 proofs by induction / well-founded recursion over point lists + exact differential correspondence with the C++ (ASan/UBSan)",
   design="§6 C13")
 
